@@ -321,6 +321,11 @@ def step (s : State) (toks : List String) : State × String :=
   | ["rev"] => (s, s!"rev {match s.sg with | some g => g.g.committed | none => s.st.b.committed}")
   | ["watch", name, key, stop, rev] => stepWatch s name key stop (parseInt rev)
   | ["wevents", name] => stepWevents s name
+  | ["wcanceled", name] =>
+    -- a watch is cancelled with exactly one `canceled` response, the last one naming it
+    match s.ws.find? (·.name == name) with
+    | some w => (s, s!"wcanceled {name} n={if w.canceled then 1 else 0} extra=0")
+    | none => (s, s!"wcanceled {name} nowatch")
   | ["wcancel", name] =>
     -- the hub drops the subscription; the client sees a cancel answer (compact_revision 0)
     let pend : List WEv := match s.ws.find? (·.name == name) with
